@@ -54,7 +54,9 @@ def history(cfg, skip_first_query=False):
     X, Q, U = make_data(cfg)
     numba.set_num_threads(cfg["threads"])
     steps = []
-    idx = NNDescent(X, n_neighbors=cfg["k"], random_state=cfg["seed"], low_memory=cfg["low_memory"],
+    if cfg.get("metric") == "cosine" and cfg["kind"] == "dense":
+        Q = Q.copy(); Q[::7] = 0.0                  # zero-norm queries: rows the search skips must come back the same every time too
+    idx = NNDescent(X, n_neighbors=cfg["k"], random_state=cfg["seed"], low_memory=cfg["low_memory"], metric=cfg.get("metric", "euclidean"),
                     diversify_prob=cfg["dprob"], parallel_batch_queries=cfg["pbq"], tree_init=cfg["tree_init"],
                     n_jobs=cfg.get("n_jobs"), max_candidates=cfg.get("max_candidates"))
     steps.append(("build", state_digest(idx, False)))
@@ -105,6 +107,7 @@ def gen_cfg(rng, tier, i):
         "update": bool(rng.integers(2)) and kind == "dense", "ties": bool(rng.integers(3) == 0) or i == 1,
         # the index's own limit (below the ambient count): its work runs on n_jobs threads, everything else on the ambient count
         "n_jobs": [None, None, 2][int(rng.integers(3))] if i != 0 else 2,
+        "metric": "cosine" if i % 3 == 1 else "euclidean",
     }
 
 
